@@ -17,9 +17,11 @@
 import MdModel.DumpCtx
 import MdModel.DumpText
 import MdModel.DumpMisc
+import MdModel.DumpMiscInfo
 namespace MdModel.Dump
 open MdModel
 open MdModel.Gen.LayoutsX
+open MdModel.Gen.LayoutsC02 (ST_MiscInfoStream)
 
 structure Extra where
   sys : Except Err SysInfo
@@ -116,5 +118,43 @@ def readFull (ms : MemSizes) (b : Bytes) : M (Except Err Full) :=
   match r with
   | .error er => pure (.error er)
   | .ok p => readExtra b p >>= fun x => pure (.ok ⟨p, x⟩)
+
+/-! ## the third group (`readMore`): what was only sampled until round 4
+
+    * `MinidumpMiscInfo` with its accessors and printer (MdModel.DumpMiscInfo).
+
+  `readWhole` = `readFull` then `readMore` is what the driver runs. -/
+
+/-- `std::panic::catch_unwind` as the harness applies it to ONE operation: a panic outcome becomes
+    the value `.error site`, so that the remaining operations can still be rendered. The property
+    counts the panic whoever catches it: the theorems are about `readWholeWith false`. -/
+def M.catchUnwind {α : Type} (x : M α) : M (Except String α) :=
+  match x.res with
+  | .ok a => ⟨.ok (.ok a), x.allocs⟩
+  | .err e => ⟨.err e, x.allocs⟩
+  | .panic s => ⟨.ok (.error s), x.allocs⟩
+
+structure More where
+  misc : Except Err MiscPrinted
+
+/-- `caught` = render mode (see `M.catchUnwind`); nothing of this group can panic yet -/
+def readMore (_caught : Bool) (b : Bytes) (f : Full) : M More :=
+  let d := f.base.dump
+  let e := d.endian
+  getStream d b ST_MiscInfoStream (fun s => readMiscInfoX s e) >>= fun misc =>
+  pure { misc := misc }
+
+structure Whole where
+  full : Full
+  more : More
+
+def readWholeWith (caught : Bool) (ms : MemSizes) (b : Bytes) : M (Except Err Whole) :=
+  readFull ms b >>= fun r =>
+  match r with
+  | .error er => pure (.error er)
+  | .ok f => readMore caught b f >>= fun m => pure (.ok ⟨f, m⟩)
+
+/-- `readFull`, then the third group: the function the theorems of MdProofs.C01 §12-16 are about -/
+def readWhole (ms : MemSizes) (b : Bytes) : M (Except Err Whole) := readWholeWith false ms b
 
 end MdModel.Dump
